@@ -435,6 +435,32 @@ func statelessness(b *strings.Builder, fset *token.FileSet, dir string) {
 			}
 		}
 	}
+	// exported surface: every exported function, method and type of the package (a new exported
+	// constructor / accessor — e.g. one that creates a helper for another zone — changes this list)
+	var api []string
+	for _, fn := range allFuncs {
+		if !fn.Name.IsExported() {
+			continue
+		}
+		if fn.Recv == nil {
+			api = append(api, "func "+fn.Name.Name)
+		} else if len(fn.Recv.List) == 1 {
+			t := fn.Recv.List[0].Type
+			if st, ok := t.(*ast.StarExpr); ok {
+				t = st.X
+			}
+			if id, ok := t.(*ast.Ident); ok && id.IsExported() {
+				api = append(api, "method "+id.Name+"."+fn.Name.Name)
+			}
+		}
+	}
+	for _, st := range structs {
+		if ast.IsExported(st.name) {
+			api = append(api, "type "+st.name)
+		}
+	}
+	sort.Strings(api)
+	fmt.Fprintf(b, "def exportedApi : List String := %s\n", strList(api))
 	sort.Strings(pkgVars)
 	sort.Slice(structs, func(i, j int) bool { return structs[i].name < structs[j].name })
 	fmt.Fprintf(b, "def pkgVars : List String := %s\n", strList(pkgVars))
